@@ -69,8 +69,43 @@ def _ends_in_return(stmts):
     return False
 
 
+def _return_from_endless_loop(stmts):
+    """while True: A; if c: return X; B      (the loop's only exit: one `return`, under plain ifs of the loop body; no break, no else)
+    ->  while True: A; if c: break; B   followed by   return X      (X is evaluated right after the break, in the same state)"""
+    out = []
+    for i, st in enumerate(stmts):
+        if isinstance(st, ast.While) and isinstance(st.test, ast.Constant) and st.test.value is True and not st.orelse:
+            rets, other = [], []
+
+            def scan(body, lst, idx_path):
+                for j, x in enumerate(body):
+                    if isinstance(x, ast.Return):
+                        rets.append((body, j))
+                    elif isinstance(x, ast.Break):
+                        other.append(x)
+                    elif isinstance(x, ast.If):
+                        scan(x.body, lst, idx_path)
+                        scan(x.orelse, lst, idx_path)
+                    elif isinstance(x, (ast.For, ast.While, ast.Try, ast.With, ast.AsyncWith, ast.AsyncFor, ast.Match)):
+                        if any(isinstance(y, (ast.Return, ast.Break)) for y in ast.walk(x)):
+                            other.append(x)
+            st2 = copy.deepcopy(st)
+            scan(st2.body, None, None)
+            if len(rets) == 1 and not other:
+                body, j = rets[0]
+                r = body[j]
+                body[j] = ast.copy_location(ast.Break(), r)
+                del body[j + 1:]
+                out.append(st2)
+                out.append(r)
+                return out          # whatever followed an endless loop was unreachable
+        out.append(st)
+    return out
+
+
 def eliminate_early_returns(stmts):
     """rewrite `if c: ...; return x` followed by more statements into if/else so that returns only occur at tails"""
+    stmts = _return_from_endless_loop(stmts)
     out = []
     for i, st in enumerate(stmts):
         if isinstance(st, ast.If):
@@ -198,6 +233,7 @@ def splicable(h):
         if isinstance(n, (ast.Yield, ast.YieldFrom, ast.Await, ast.Global, ast.Nonlocal)):
             return False
     body = [st for st in node.body if not (isinstance(st, ast.Expr) and isinstance(st.value, ast.Constant))]
+    body = _return_from_endless_loop(body)
     if _has_return_in_loop(body):
         return False
     return True
